@@ -423,8 +423,13 @@ fn parse_matched_braces_or_ending_semi(input: ParseStream) -> syn::Result<TokenS
             match &tt {
                 TokenTree::Group(group) => {
                     let is_brace = group.delimiter() == Delimiter::Brace;
+                    // An item that `macro_rules!` passed on as an `$item:item` fragment
+                    // arrives as one group with invisible delimiters:
+                    let is_interpolated_item = tokens.is_empty()
+                        && group.delimiter() == Delimiter::None
+                        && ends_an_item(group.stream());
                     tokens.extend(std::iter::once(tt));
-                    if is_brace {
+                    if is_brace || is_interpolated_item {
                         return Ok((tokens, next));
                     }
                 }
@@ -453,6 +458,17 @@ fn parse_matched_braces_or_ending_semi(input: ParseStream) -> syn::Result<TokenS
     }
 
     Ok(tokens)
+}
+
+/// Whether the tokens end the way an item does: in `{..}` or `;`
+fn ends_an_item(stream: TokenStream) -> bool {
+    match stream.into_iter().last() {
+        Some(proc_macro2::TokenTree::Group(group)) => {
+            group.delimiter() == proc_macro2::Delimiter::Brace
+        }
+        Some(proc_macro2::TokenTree::Punct(punct)) => punct.as_char() == ';',
+        _ => false,
+    }
 }
 
 fn disallow_token<T: Spanned>(token: Option<T>) -> syn::Result<()> {
